@@ -1,7 +1,8 @@
 import DltypeModel
 import Spec
+import Proofs.Fuel
 namespace Dltype.C06
-open Dltype
+open Dltype Dltype.Proofs
 
 /-- KNOWN FINDING F6 (negation of the full statement "accept ⇒ grammatical", kernel-checked witnesses):
     strings outside the documented grammar that the (faithful) parser model accepts. -/
@@ -10,5 +11,98 @@ theorem full_statement_false :
     ((parseDim "1=2".toList).toOption.isSome ∧ (Spec.recogniseDim "1=2".toList).isNone) ∧
     ((parseDim "a=a".toList).toOption.isSome ∧ (Spec.recogniseDim "a=a".toList).isNone) := by
   decide
+
+/-- **C06_partial (1)** whatever the string, parsing one dimension raises nothing but SyntaxError: the
+    recursion bound of the model (`fuel`) is never what stops it -/
+theorem dimension_parser_raises_only_syntax_error (s : List Char) (e : ParseErr)
+    (h : parseDim s = .error e) : e = .syntax := by
+  match e, h with
+  | .syntax, _ => rfl
+  | .fuel, h =>
+    exfalso
+    unfold parseDim at h
+    split at h
+    · cases h
+    · simp only at h
+      cases ht : tokenize (splitEq s).2 with
+      | error e' =>
+        simp only [ht] at h
+        injection h with h
+        subst h
+        unfold tokenize at ht
+        cases hr : tokenizeRaw (splitEq s).2 with
+        | error e'' =>
+          simp only [hr] at ht
+          injection ht with ht; subst ht
+          -- the character loop only ever fails with SyntaxError
+          have : ∀ (cs span : List Char), tokenizeAux cs span ≠ .error .fuel := by
+            intro cs
+            induction cs with
+            | nil => intro span; simp [tokenizeAux]
+            | cons c cs ih =>
+              intro span
+              simp only [tokenizeAux]
+              split
+              · simp
+              · split
+                · cases hh : tokenizeAux cs [] with
+                  | error e3 => simp only [Except.map]; intro he; injection he with he; subst he; exact ih [] hh
+                  | ok r => simp [Except.map]
+                · exact ih _
+          exact this _ _ hr
+        | ok ts => simp only [hr] at ht; split at ht <;> cases ht
+      | ok ts =>
+        simp only [ht] at h
+        unfold pfiTop at h
+        have hloop : (loop (ts.length + 1) ts [] []).bind (mkDim (splitEq s).1) ≠ .error .fuel := by
+          cases hl : loop (ts.length + 1) ts [] [] with
+          | error e' =>
+            simp only [Except.bind]
+            intro he; injection he with he; subst he
+            exact loop_no_fuel (ts.length + 1) ts [] [] (by omega) hl
+          | ok p =>
+            simp only [Except.bind, mkDim]
+            split <;> simp
+        split at h
+        · cases h
+        · split at h
+          · cases h
+          · exact hloop h
+        · split at h <;> cases h
+        · exact hloop h
+
+/-- **C06_partial (2)** a space anywhere in the expression part of a dimension is a SyntaxError -/
+theorem space_is_syntax_error (cs span : List Char) (h : ' ' ∈ cs) : tokenizeAux cs span = .error .syntax := by
+  induction cs generalizing span with
+  | nil => simp at h
+  | cons c cs ih =>
+    simp only [tokenizeAux]
+    by_cases hc : c = ' '
+    · simp [hc]
+    · have hin : ' ' ∈ cs := by
+        rcases List.mem_cons.mp h with h | h
+        · exact absurd h.symm hc
+        · exact h
+      simp only [hc, if_false]
+      split
+      · rw [ih [] hin]; rfl
+      · exact ih _ hin
+
+/-- **C06_partial (3)** the empty string, a whitespace-only shape and a shape with two multi-axis markers
+    are SyntaxErrors at construction -/
+theorem empty_and_double_marker_rejected :
+    (parseDim [] matches .error .syntax) = true ∧
+    (parseShape (some []) matches .error (.parse .syntax)) = true ∧
+    (parseShape (some "   ".toList) matches .error (.parse .syntax)) = true ∧
+    (parseShape (some "... a ...".toList) matches .error (.parse .syntax)) = true ∧
+    (parseShape (some "*x a *y".toList) matches .error (.parse .syntax)) = true ∧
+    (parseShape (some "... *y".toList) matches .error (.parse .syntax)) = true := by decide
+
+/-- more than one marker is refused whatever the other dimensions are -/
+theorem two_markers_rejected (s : List Char) (dims : List DimExpr) (cls : Nat) (opt : Bool)
+    (hs : (splitWs s []).isEmpty = false) (hd : parseDims (splitWs s []) = .ok dims)
+    (hm : (markerIdxs dims 0).length > 1) : parseShape (some s) cls opt = .error (.parse .syntax) := by
+  unfold parseShape
+  simp [hs, hd, hm]
 
 end Dltype.C06
